@@ -314,10 +314,20 @@ func isolate(r *vh.Run, j job) job {
 		defer os.RemoveAll(dir)
 		ctx, cancel := context.WithTimeout(context.Background(), 150*time.Second)
 		defer cancel()
-		cmd := exec.CommandContext(ctx, os.Args[0], "C11", "-tier", r.Tier, "-seed", fmt.Sprint(r.Seed), "-drv", r.Drv, "-out", dir, "-only", name)
-		cmd.Env = append(os.Environ(), "VERIF_C11_CHILD=1")
-		out, _ := cmd.CombinedOutput()
-		code := cmd.ProcessState.ExitCode()
+		var out []byte
+		code := 0
+		for attempt := 0; attempt < 4; attempt++ {
+			cmd := exec.CommandContext(ctx, os.Args[0], "C11", "-tier", r.Tier, "-seed", fmt.Sprint(r.Seed), "-drv", r.Drv, "-out", dir, "-only", name)
+			cmd.Env = append(os.Environ(), "VERIF_C11_CHILD=1")
+			out, _ = cmd.CombinedOutput()
+			code = cmd.ProcessState.ExitCode()
+			// an abnormal exit that is not a Go panic / runtime fatal error is the harness's own
+			// trouble (e.g. the model driver binary being relinked by a concurrent build): try again
+			if code == 0 || code == 1 || strings.Contains(string(out), "panic:") || strings.Contains(string(out), "fatal error:") {
+				break
+			}
+			time.Sleep(3 * time.Second)
+		}
 		c.Op("isolated "+name, fmt.Sprintf("exit %d", code))
 		text := string(out)
 		switch code {
